@@ -562,8 +562,8 @@ seed("c11-consuming-sub", "C11", PA, "        &self - &minus\n", "        &minus
 seed("c12-add-not-sub", "C12", PA, "            r = r - ( t * v.clone() );", "            r = r + ( t * v.clone() );", "update-pair")
 seed("c12-count-dropped", "C12", PA, "            count += 1;\n", "", "no-spin")
 seed("c12-zero-check-removed", "C12", PA, '        if v.is_zero() { return Err( "Polynomial.polydiv() divide by zero polynomial" ); }\n', "", "zero-divisor/all-zero")
-seed("c12-term-index", "C12", PA, "t.coeffs[ r.degree()? - v.degree()? ] = r.coeffs[ r.degree()? ] / v.coeffs[ v.degree()? ];", "t.coeffs[ r.degree()? - v.degree()? ] = r.coeffs[ r.degree()? ] / v.coeffs[ 0 ];", "term")
-seed("c12-term-inverted", "C12", PA, "t.coeffs[ r.degree()? - v.degree()? ] = r.coeffs[ r.degree()? ] / v.coeffs[ v.degree()? ];", "t.coeffs[ r.degree()? - v.degree()? ] = v.coeffs[ v.degree()? ] / r.coeffs[ r.degree()? ];", "term")
+seed("c12-term-index", "C12", PA, "t.coeffs[ r.degree()? - v.degree()? ] = lead / v.coeffs[ v.degree()? ];", "t.coeffs[ r.degree()? - v.degree()? ] = lead / v.coeffs[ 0 ];", "term")
+seed("c12-term-inverted", "C12", PA, "t.coeffs[ r.degree()? - v.degree()? ] = lead / v.coeffs[ v.degree()? ];", "t.coeffs[ r.degree()? - v.degree()? ] = v.coeffs[ v.degree()? ] / lead;", "term")
 seed("c12-exit-strict", "C12", PA, "while !r.is_zero() && r.degree()? >= v.degree()? {", "while !r.is_zero() && r.degree()? > v.degree()? {", "exit")
 seed("c12-result-swapped", "C12", PA, "        Ok( ( q ,r ) )", "        Ok( ( r ,q ) )", "exit")
 seed("c12-q-sub", "C12", PA, "            q = q + t.clone();", "            q = q.clone() + t.clone() + t.clone();", "update-pair")
@@ -656,3 +656,6 @@ seed("n-c14-neg-placement", "C14", CT, "Cmplx::new(self.real.cos() * self.imag.c
 
 seed("c20-setcol-rows", "C20", OPS, 'if self.cols <= col { panic!( "Matrix range error in set_col" ); }',
      'if self.rows <= col { panic!( "Matrix range error in set_col" ); }', "reject/matrix::Matrix<T>::set_col", "the original defect")
+
+seed("c12-degree-drop-removed", "C12", PA, "            if lead + r.coeffs[ top ] == lead { r.coeffs[ top ] = T::zero(); }\n", "", "degree-drops", "the original defect")
+seed("c12-absorption-wrong-lead", "C12", PA, "            if lead + r.coeffs[ top ] == lead { r.coeffs[ top ] = T::zero(); }", "            if r.coeffs[ top ] + r.coeffs[ top ] == r.coeffs[ top ] { r.coeffs[ top ] = T::zero(); }", "degree-drops", "tests the residue against itself: only true for zero")
